@@ -152,8 +152,16 @@ def run_case(case):
     N = int(rng.choice([1, 2, 3, 5, 7, 12, 20, 33, 64, 100, 130]))
     T = int(rng.integers(1, 9))
     sdt = ['uint8', 'int8', 'int16', 'float32', 'float64', 'int32'][int(rng.integers(6))]
+    if klass.startswith(('CPA', 'DPA')) and rng.random() < 0.1:
+        sdt = 'float16'
     samples = rng.integers(0, 4, (N, T)).astype(sdt)
     samples[:, 0] = np.arange(N) % 4
+    mia_fine = klass.startswith('MIA') and rng.random() < 0.4
+    if mia_fine:
+        # histogram counts are exact for any real samples: double-precision samples a hair on either side of the bin edges k + 0.5
+        # (a conversion of the batch to single precision on the way to the distinguisher moves them across the edge)
+        sdt = 'float64'
+        samples = samples.astype('float64') + 0.5 + rng.choice([-1e-9, 1e-9, 0.25], (N, T))
     W = 1 if klass == 'TemplateBuild' else int(rng.integers(1, 4))
     v = rng.integers(0, 256, (N, W)).astype('uint8')
     tid = np.arange(N, dtype='int64').reshape(N, 1)
@@ -161,6 +169,8 @@ def run_case(case):
     frame, fidx = _frame(rng, T)
     Xf = samples[:, frame if frame is not None else ...]
     chain, cdesc = _chain(rng, Xf.shape[1])
+    if mia_fine:
+        chain, cdesc = [], []
     G = int(rng.integers(2, 6))
     bit = int(rng.integers(0, 8))
     dpa = klass.startswith('DPA')
@@ -241,7 +251,13 @@ def run_case(case):
         lo, hi = float(np.min(X)) if X.size else 0.0, float(np.max(X)) if X.size else 1.0
         nb = int(rng.integers(2, 9))
         edges = np.linspace(np.floor(lo) - 0.5, np.floor(lo) - 0.5 + nb * max(1.0, np.ceil((hi - lo + 1) / nb)), nb + 1)
+        if mia_fine:
+            edges = np.arange(-0.5, 5.0, 1.0)
+            t.count('mia_samples_around_edges')
         kw['bin_edges'] = edges
+        if rng.random() < 0.4:
+            precision = ['uint32', 'uint16'][int(rng.integers(2))] if N < 60000 else 'uint32'       # integer counters: a documented option of MIA
+            kw['precision'] = precision
     if klass == 'TemplateBuild':
         from scared.analysis.template import _TemplateBuildAnalysis
         a = _TemplateBuildAnalysis(**kw)
@@ -294,7 +310,10 @@ def run_case(case):
                 cont.frame = frame if frame is not None else ...
                 t.count('frame_reassigned_before_run')
             else:
-                cont = scared.Container(sub, frame=frame, preprocesses=list(chain)) if frame is not None or rng.random() < 0.5 else scared.Container(sub, preprocesses=list(chain))
+                if not chain and rng.random() < 0.6:
+                    cont = scared.Container(sub, frame=frame) if frame is not None else scared.Container(sub)      # default (shared) preprocesses argument
+                else:
+                    cont = scared.Container(sub, frame=frame, preprocesses=list(chain)) if frame is not None or rng.random() < 0.5 else scared.Container(sub, preprocesses=list(chain))
             start = len(log_updates)
             a.run(cont)
             run_marks.append((start, len(log_updates)))
@@ -307,6 +326,8 @@ def run_case(case):
     finally:
         scared.set_batch_size(None)
     t.check(scared.Container._BATCH_SIZE == before, 'batch_size_setting_not_restored', info)
+    dflt = scared.Container.__init__.__defaults__
+    t.check(dflt is None or all(not isinstance(d, list) or d == [] for d in dflt), 'shared_default_argument_modified', lambda: dict(info, defaults=repr(dflt)[:200]))
     if nruns > 1:
         t.count('multi_run_sequences')
     # ---- trace specification over the event log
